@@ -1951,8 +1951,10 @@ static Chunk *output_comment_c(Chunk *first)
          tmp.at(1) = '/'; // Change '/*' to '//'
          cmt_trim_whitespace(tmp, false);
          first->Str() = tmp;
+         // it is a C++ comment from here on: only C++ comments may be grouped with it
+         first->SetType(CT_COMMENT_CPP);
 
-         output_comment_cpp(first);
+         return(output_comment_cpp(first));
       }
       else
       {
